@@ -635,6 +635,7 @@ class RngModel:
         self.ctx = ctx
         self.summ: dict[str, dict] = {}
         self.stack: set[str] = set()
+        self.fallback_global: set = set()       # (function, parameter) whose None means "the module-level generator"
 
     def gen_kind(self, fi: FuncInfo, e: ast.expr, depth=0) -> Optional[str]:
         """'seeded' | 'unseeded' | 'global' | 'param:<name>' | None (not an RNG object)"""
@@ -654,6 +655,22 @@ class RngModel:
                     return "seeded"
                 return "unseeded"
             return None
+        # `(rng or random).shuffle(..)`, `(rng if rng is not None else random)`: the parameter, falling back to the module-level
+        # generator when it is not given
+        alts = None
+        if isinstance(e, ast.BoolOp) and isinstance(e.op, ast.Or) and len(e.values) == 2:
+            alts = (e.values[0], e.values[1])
+        elif isinstance(e, ast.IfExp):
+            alts = (e.body, e.orelse)
+        if alts is not None:
+            ka, kb = self.gen_kind(fi, alts[0], depth + 1), self.gen_kind(fi, alts[1], depth + 1)
+            for k1, k2 in ((ka, kb), (kb, ka)):
+                if k1 and k1.startswith("param:") and k2 == "global":
+                    self.fallback_global.add((fi.fq, k1[6:]))
+                    return k1
+            if ka == kb:
+                return ka
+            return "unseeded" if "unseeded" in (ka, kb) else None
         if isinstance(e, (ast.Name, ast.Attribute)):
             r = ctx.repo.resolve_dotted(fi.module, e) if not (isinstance(e, ast.Name) and (e.id in params or e.id in assigned_names(fi.node))) else None
             if r and r[0] == "extmod" and r[1] == "random":
@@ -717,11 +734,15 @@ class RngModel:
                                 if pp.arg == p:
                                     d = dd
                             k = self.gen_kind(cs.target, d) if d is not None else None
+                            if isinstance(d, ast.Constant) and d.value is None and (cs.target.fq, p) in self.fallback_global:
+                                k = "global"
                             if d is not None and k is None:
                                 rr = ctx.repo.resolve_dotted(cs.target.module, d) if isinstance(d, (ast.Name, ast.Attribute)) else None
                                 k = "global" if rr and rr[0] == "extmod" and rr[1] == "random" else None
                         else:
                             k = self.gen_kind(fi, arg)
+                            if isinstance(arg, ast.Constant) and arg.value is None and (cs.target.fq, p) in self.fallback_global:
+                                k = "global"
                         if k == "global":
                             out["global"].append((fi, n, f"random.* through parameter `{p}` of {cs.target.qualname} (argument omitted: default is the module-level generator)"
                                                   if arg is None else f"random.* through parameter `{p}` of {cs.target.qualname}"))
